@@ -20,6 +20,9 @@ func NewQueryParameter(refP specification.Ref[specification.QueryParameter], com
 	if err != nil {
 		return zero, nil, fmt.Errorf("schema: %w", err)
 	}
+	if schema.isRecursive() {
+		return zero, nil, fmt.Errorf("schema: recursive array schemas are not supported in parameters")
+	}
 	var st SchemaType = schema
 	if !s.Required {
 		st = NewOptionalType(schema, cfg)
@@ -93,6 +96,9 @@ func NewHeaderParameter(sr specification.Ref[specification.HeaderParameter], com
 	schema, ims, err := NewSchema(s.Schema, components, cfg)
 	if err != nil {
 		return zero, nil, fmt.Errorf("schema: %w", err)
+	}
+	if schema.isRecursive() {
+		return zero, nil, fmt.Errorf("schema: recursive array schemas are not supported in parameters")
 	}
 	var st SchemaType = schema
 	if !s.Required {
